@@ -490,7 +490,7 @@ func TestVerif_C01_e2e(t *testing.T) {
 		}
 	}
 	r := s.Rand()
-	n := verifh.N(500, 6000)
+	n := verifh.N(800, 6000)
 	for i := 0; i < n; i++ {
 		tc := c01GenE2E(r)
 		if verifh.Thorough() && i%200 == 0 && tc.bodyKind != "none" {
